@@ -17,18 +17,18 @@ structure BlockOpt where
   szx : Nat
 deriving Repr, DecidableEq
 
-/-- `size`: `2 ** (min(self.size_exponent, 6) + 4)` (optiontypes.py:174-176) -/
+/-- `size`: `2 ** (min(self.size_exponent, 6) + 4)` (optiontypes.py:173-175) -/
 def BlockOpt.size (b : BlockOpt) : Nat := 2 ^ (min b.szx 6 + 4)
 
-/-- `start`: `self.block_number * self.size` (optiontypes.py:178-188) -/
+/-- `start`: `self.block_number * self.size` (optiontypes.py:177-188) -/
 def BlockOpt.start (b : BlockOpt) : Nat := b.num * b.size
 
-/-- `is_valid_for_payload_size`, the non-BERT branch (optiontypes.py:195-204):
+/-- `is_valid_for_payload_size`, the non-BERT branch (optiontypes.py:194-203):
 a block with the more flag carries exactly `size` bytes, the last one at most `size`. -/
 def BlockOpt.validFor (b : BlockOpt) (payloadSize : Nat) : Bool :=
   if b.more then payloadSize == b.size else decide (payloadSize ≤ b.size)
 
-/-- `reduced_to(maximum_exponent)` (optiontypes.py:206-222), without the BERT special case:
+/-- `reduced_to(maximum_exponent)` (optiontypes.py:205-222), without the BERT special case:
 `block_number << (min(szx, 6) - maximum_exponent)`. -/
 def BlockOpt.reducedTo (b : BlockOpt) (maxExp : Nat) : BlockOpt :=
   if maxExp ≥ b.szx then b
